@@ -83,6 +83,15 @@ def systematic():
                                 Variant("Second", shapes[1], [], [ser(y)] + ([aci(True, explicit=True)] if fb else []))], metas=[EM("phf")])
                 ov.overlap_family = True       # spellings overlap on purpose: declaration order decides, with and without the map
                 items.append(ov)
+    # serialize_all next to the flags: the RENAMED identifier is what is compared, exactly or ignoring ASCII case — also when the style only
+    # changes the case (lowercase / UPPERCASE), and also for identifiers with non-ASCII letters (which ASCII folding leaves alone)
+    for st in ("lowercase", "UPPERCASE", "snake_case", "SCREAMING-KEBAB-CASE", "camelCase", "Train-Case"):
+        for eflag in (False, True):
+            vs = [Variant("High", "unit"), Variant("DarkBlack", "unit", [], [aci(False)]), Variant("Ärger", "unit", [], [aci(True, explicit=False)]),
+                  Variant("Café", "unit", [], [aci(True, explicit=True)] if not eflag else []), Variant("ÉlanVital", "unit", [], [aci(False)] if eflag else []),
+                  Variant("MidGray", "unit", [], [aci(True, explicit=False)]), Variant("Low2Go", "unit", [], [ser("low-2"), aci(not eflag, explicit=True)])]
+            items.append(Item("E", vs, metas=[EM("sall", st)] + ([EM("aci")] if eflag else [])))
+            items.append(Item("E", copy.deepcopy(vs), metas=([EM("aci")] if eflag else []) + [EM("sall", st), EM("phf")]))
     # options meant for OTHER derives (const_into_str, prefix) on the enum do not make anything case-insensitive
     for extra in ([EM("cis")], [EM("prefix", "p/")], [EM("cis"), EM("sall", "snake_case")]):
         vs = [Variant("Red", "unit"), Variant("DarkGreen", "unit", [], [aci(True, explicit=False)]), Variant("Blue", "unit", [], [ser("blue"), aci(False)]),
